@@ -385,6 +385,22 @@ func init() {
 		Rule:        "rapid: height range (symmetric / asymmetric dyadic, documented example, non-dyadic float, integer) x subdivision zoom 0..35; forward: voxel zoom chosen so that the run has <=~4096 cells, voxel placed around the bottom / top of the range, inside it, or anywhere (outside: clamped), extended or single-zoom API; backward: bit index (edge-weighted) x output zoom bounded the same way. Both directions are also called with the heights swapped (error clause). Sweep: 5 dyadic ranges x Z<=4 x voxel zooms 20..27 across the range, all bit cells x 5 output zooms. Non-trivial: non-dyadic range, or voxel straddling a range end, or run length>=3.",
 		Assumptions: []string{"oracle: exact rational subdivision index floor((a-min)2^Z/(max-min)) clamped to 0..2^Z-1; either neighbouring cell accepted when the altitude is within (|min|+|max|+|a|)*2^-46 of a cell border (no band at all for dyadic ranges, where the halving is exact) (Z<=35 float halvings)", "backward: ends compared with floor(alt/res) of the cell's exact altitude bounds with the same band", "run length bounded to ~4096 by construction"},
 		Gen:         genC17, Check: checkC17, Classify: classifyC17, Sweep: sweepC17,
+		Related: func(c *CaseC17) []*CaseC17 {
+			var out []*CaseC17
+			add := func(m func(*CaseC17)) {
+				d := *c
+				m(&d)
+				if d.V >= 0 && d.V <= 35 && d.Z >= 0 && d.Z <= 35 && d.OutV >= 0 && d.OutV <= 35 && d.K >= 0 && d.K < int64(1)<<uint(d.Z) && d.Max.V() > d.Min.V() && (!d.Spatial || (d.V >= 1 && d.V <= 31)) && c17Run(&d) <= 4096 {
+					out = append(out, &d)
+				}
+			}
+			add(func(d *CaseC17) { d.F++ })
+			add(func(d *CaseC17) { d.V++ })
+			add(func(d *CaseC17) { d.Z-- })
+			add(func(d *CaseC17) { d.K++ })
+			add(func(d *CaseC17) { d.Max = F64(d.Max.V() * 2) })
+			return out
+		},
 		SweepScopes: func(tier string) []string {
 			return []string{"5 dyadic ranges x Z<=4 x voxel zooms 20..27 x up to 80 voxels across the range (forward)", "5 dyadic ranges x Z<=4 x every bit cell x output zooms {20,24,25,26,28} (backward, exhaustive over the cells)"}
 		},
